@@ -2,6 +2,7 @@
   Axiom audit for the document-level theorems of property C02 (parsed by ./check).
 -/
 import RdfModel.Props.C02Doc
+import RdfModel.Props.C02DocNest
 
 #print axioms RdfModel.C02.gen_turtle_doc_ok
 #print axioms RdfModel.C02.docCfg_ok
@@ -17,3 +18,12 @@ import RdfModel.Props.C02Doc
 #print axioms RdfModel.C02.Example.label_ok
 #print axioms RdfModel.C02.Example.ts_ok
 #print axioms RdfModel.C02.Example.res_ok
+#print axioms RdfModel.C02.tokPrint_of
+#print axioms RdfModel.C02.docCfg_nest_ok
+#print axioms RdfModel.C02.nested_doc_roundtrip_hdr_partial
+#print axioms RdfModel.C02.nested_doc_roundtrip_partial
+#print axioms RdfModel.C02.NestExample.cfg_ok
+#print axioms RdfModel.C02.nested_doc_roundtrip_real
+#print axioms RdfModel.C02.iso_trans
+#print axioms RdfModel.C02.buffered_resources_roundtrip_partial
+#print axioms RdfModel.C02.NestExample.rs_ok
